@@ -41,9 +41,13 @@ import (
 type Cfg struct {
 	Modules   []string // load order; subset of auth confirm lock logout oauth2 otp recover register remember
 	TwoFA     []string // setup order; subset of totp sms
-	UseExpire bool     // expire.Setup + expire.Middleware (never together with remember.Middleware)
-	JSON      bool     // API mode: JSON bodies in, JSON "redirects" out
-	Mount     string
+	UseExpire bool     // expire.Setup + expire.Middleware (without remember.Middleware unless RememberBeforeExpire)
+	// RememberBeforeExpire installs remember.Middleware outside expire.Middleware (LoadClientState →
+	// remember → expire → application): a remembered browser whose session idled out is anonymous on the
+	// expired request and re-authenticated from its cookie on the next one.
+	RememberBeforeExpire bool
+	JSON                 bool // API mode: JSON bodies in, JSON "redirects" out
+	Mount                string
 
 	RecoverLogin    bool
 	TwoFAEmail      bool
@@ -217,14 +221,19 @@ type World struct {
 
 	Faults   map[int]error    // fault plan for the next request: index among faultable calls → error
 	FaultOps map[string]error // fault plan by operation name (first occurrence in the next request)
-	FailSMS  bool
-	handler  http.Handler
-	cur      *Rec
-	seq      int
-	fidx     int
-	now      time.Time
-	sidSalt  string
-	SendMail bool
+	// Yield is an interleaving plan for the next request: before its i-th faultable backend call the
+	// function runs (typically another browser's whole request), then the call proceeds. YieldedAt
+	// lists the operations at which a plan entry actually fired.
+	Yield     map[int]func()
+	YieldedAt []string
+	FailSMS   bool
+	handler   http.Handler
+	cur       *Rec
+	seq       int
+	fidx      int
+	now       time.Time
+	sidSalt   string
+	SendMail  bool
 }
 
 var epoch = time.Date(2031, 3, 14, 9, 26, 53, 0, time.UTC)
@@ -406,6 +415,12 @@ func (w *World) buildStack() http.Handler {
 		"/protected/lockonly":    authboss.Middleware2(ab, authboss.RequireNone, fail)(guard(probe("lockonly"), true, false)),
 		"/protected/confirmonly": authboss.Middleware2(ab, authboss.RequireNone, fail)(guard(probe("confirmonly"), false, true)),
 		"/protected/bare":        authboss.Middleware2(ab, authboss.RequireNone, fail)(probe("bare")),
+		// an application that wraps its whole mux ("r.Use(...)") also guards the pages the guards redirect
+		// to, its front page and whatever it serves below the library's mount point
+		PathLockNotOK:             authboss.Middleware2(ab, authboss.RequireNone, fail)(guard(probe("notok-lock"), true, true)),
+		PathConfirmNotOK:          authboss.Middleware2(ab, authboss.RequireNone, fail)(guard(probe("notok-confirm"), true, true)),
+		"/":                       authboss.Middleware2(ab, authboss.RequireNone, fail)(guard(probe("root"), true, true)),
+		w.Cfg.Mount + "/app/page": authboss.Middleware2(ab, authboss.RequireNone, fail)(guard(probe("mounted"), true, true)),
 		"/app/set": http.HandlerFunc(func(rw http.ResponseWriter, r *http.Request) {
 			k, v := r.URL.Query().Get("k"), r.URL.Query().Get("v")
 			if strings.HasPrefix(k, "app_") || k == "xhalfauthx" {
@@ -435,6 +450,9 @@ func (w *World) buildStack() http.Handler {
 	h = authboss.ModuleListMiddleware(ab)(h)
 	if w.Cfg.UseExpire {
 		h = expire.Middleware(ab)(h)
+		if w.Cfg.RememberBeforeExpire && w.Cfg.Has("remember") {
+			h = remember.Middleware(ab)(h)
+		}
 	} else if w.Cfg.Has("remember") {
 		h = remember.Middleware(ab)(h)
 	}
@@ -466,6 +484,17 @@ func (w *World) backend(op, arg string, write bool) error {
 	w.seq++
 	c := Call{Seq: w.seq, Op: op, Arg: arg, Write: write}
 	var err error
+	if w.cur != nil && faultable(op) {
+		if f, ok := w.Yield[w.fidx]; ok {
+			// a scheduling point: another request runs to completion before this backend call
+			delete(w.Yield, w.fidx)
+			cur, fidx, faults, fops, y := w.cur, w.fidx, w.Faults, w.FaultOps, w.Yield
+			w.cur, w.Faults, w.FaultOps, w.Yield = nil, nil, nil, nil
+			w.YieldedAt = append(w.YieldedAt, op)
+			f()
+			w.cur, w.fidx, w.Faults, w.FaultOps, w.Yield = cur, fidx, faults, fops, y
+		}
+	}
 	if w.cur != nil {
 		if faultable(op) {
 			if e, ok := w.Faults[w.fidx]; ok {
@@ -735,6 +764,7 @@ func (w *World) DoOn(h http.Handler, b *Browser, rq Req) *Rec {
 	w.cur = nil
 	w.Faults = nil
 	w.FaultOps = nil
+	w.Yield = nil
 	rec.After = w.Store.Snapshot()
 	rec.Status = rr.Code
 	rec.Header = rr.Header().Clone()
@@ -836,6 +866,7 @@ func (w *World) Admin(name string, f func(ctx context.Context) error) *Rec {
 	}()
 	w.cur = nil
 	w.Faults = nil
+	w.Yield = nil
 	rec.After = w.Store.Snapshot()
 	return rec
 }
